@@ -1,2 +1,66 @@
-(* Properties/C19.v — property theorems only. (stub) *)
+(* Properties/C19.v — Tree traversals visit every node exactly once in the
+   documented order.  Only statements; every proof is [exact <lemma>].
+
+   [traverse pre t] (Model/Newick.v) is the explicit stack of
+   (node, next child index) of traverse.go, with fuel 2*size+2 and [Panic] when
+   the fuel runs out or a child index is out of range.  It yields node
+   occurrences (path from the root, node).  [preorder]/[postorder]
+   (Spec/NewickSpec.v) are the classic recursive definitions.
+   "Does not modify the tree" holds on the model by purity and is checked on
+   the implementation by the harness; "deeper than any recursion limit" is a
+   fact about Go's stack and is harness-only (chains of depth 10^5..10^6). *)
+From Coq Require Import String.
 From Bio Require Import Base.
+From Bio.Model Require Import Newick.
+From Bio.Spec Require Import NewickSpec.
+From Bio.Proofs Require Import NewickProofs.
+
+(* PreOrder = the classic recursive pre-order, children in slice order; the
+   fuel suffices and no index is out of range (the result is never Panic). *)
+Theorem C19_preorder_eq : forall t, traverse true t = Ok (preorder t).
+Proof. exact traverse_preorder. Qed.
+Print Assumptions C19_preorder_eq.
+
+Theorem C19_postorder_eq : forall t, traverse false t = Ok (postorder t).
+Proof. exact traverse_postorder. Qed.
+Print Assumptions C19_postorder_eq.
+
+(* Exactly the nodes of the tree: (p, n) is yielded iff n is the node at path p. *)
+Theorem C19_every_node : forall pre t l, traverse pre t = Ok l ->
+  forall p n, In (p, n) l <-> subtree_at t p = Some n.
+Proof. exact traverse_every_node. Qed.
+Print Assumptions C19_every_node.
+
+(* Each node exactly once: no occurrence is repeated, and there are size t of them. *)
+Theorem C19_each_once : forall pre t l, traverse pre t = Ok l ->
+  NoDup (map fst l) /\ length l = size t.
+Proof. exact traverse_each_once. Qed.
+Print Assumptions C19_each_once.
+
+(* Pre-order: every node before all of its descendants. *)
+Theorem C19_ancestor_before : forall t a d,
+  In a (preorder t) -> In d (preorder t) -> strict_prefix (fst a) (fst d) ->
+  before (preorder t) a d.
+Proof. exact pre_ancestor_first. Qed.
+Print Assumptions C19_ancestor_before.
+
+(* Post-order: every node after all of its descendants. *)
+Theorem C19_descendant_before : forall t a d,
+  In a (postorder t) -> In d (postorder t) -> strict_prefix (fst a) (fst d) ->
+  before (postorder t) d a.
+Proof. exact post_descendant_first. Qed.
+Print Assumptions C19_descendant_before.
+
+(* Non-vacuity: a 6-node tree ((a,b)c,(d)e)f. *)
+Definition C19_leaf (s : string) : tree := Node (bs s) [48] [].
+Definition C19_tree : tree :=
+  Node (bs "f") [48] [Node (bs "c") [48] [C19_leaf "a"; C19_leaf "b"];
+                      Node (bs "e") [48] [C19_leaf "d"]].
+Example C19_example :
+  option_map (map fst) (match traverse true C19_tree with Ok l => Some l | _ => None end)
+    = Some [[]; [0]; [0; 0]; [0; 1]; [1]; [1; 0]]%nat
+  /\ option_map (map (fun x => t_name (snd x)))
+       (match traverse false C19_tree with Ok l => Some l | _ => None end)
+    = Some [bs "a"; bs "b"; bs "c"; bs "d"; bs "e"; bs "f"]
+  /\ strict_prefix [0]%nat [0; 1]%nat.
+Proof. vm_compute. repeat split. exists [1%nat]. split; [discriminate | reflexivity]. Qed.
